@@ -218,10 +218,20 @@ def obligations(tier: str) -> List[dict]:
         for m in ('default', 'amr', 'noop', 'custom'):
             tree(m, 1, False, 120)
             for op in (0, 1):
-                tree(m, 2, m in ('amr', 'custom'), 400, (op,),
-                     ['duplicate-triples', 'deinverted', 'target-alignment',
-                      'role-alignment'] if (op == 0 and m == 'default')
-                     else [])
+                if m in ('amr', 'custom'):
+                    tree(m, 2, True, 400, (op,))
+                    continue
+                for r0 in range(len(ROLES[m])):
+                    obs.append({
+                        'name': f'E2 reading model={m} n=2 small=False '
+                                f'ops=({op},) i0_r={r0}', 'kind': 'e2',
+                        'fn': 'h_reading',
+                        'fixed': {'model': m, 'n': 2, 'small': False,
+                                  'i0_op': op, 'i0_r': r0},
+                        'timeout': 400, 'bound': '<= 2 branches',
+                        'need_marks': ['duplicate-triples', 'deinverted',
+                                       'target-alignment']
+                        if (op == 0 and m == 'default' and r0 == 1) else []})
         for m in ('default', 'noop'):
             for ops in OPS2:
                 tree(m, 3, True, 400, ops)
@@ -232,7 +242,7 @@ def obligations(tier: str) -> List[dict]:
         # through it does not finish; AMR roles are covered by h_reading)
         for m in ('default', 'noop', 'custom'):
             leaf('h_role_alignment', 300, ['inverted'] if m != 'noop' else [],
-                 maxlen=4, model=m)
+                 maxlen=4 if m == 'noop' else 3, model=m)
     else:
         for m in ('default', 'amr', 'noop', 'custom'):
             for ops in OPS2:
